@@ -65,6 +65,24 @@ func init() {
 	}
 }
 
+func init() {
+	engines["store"] = engineDef{
+		gen: func(prop string, seed uint64, tier string) any { return GenStore(prop, seed, tier) },
+		decode: func(b []byte) (any, error) {
+			sc := new(StoreScenario)
+			return sc, json.Unmarshal(b, sc)
+		},
+		run: func(t *testing.T, sc any, dump io.Writer) RunResult { return RunStore(t, sc.(*StoreScenario), dump) },
+		shrink: func(sc any) []any {
+			var out []any
+			for _, c := range ShrinkStore(sc.(*StoreScenario)) {
+				out = append(out, c)
+			}
+			return out
+		},
+	}
+}
+
 func violOf(res RunResult, prop, oracle string) *Violation {
 	for i := range res.Violations {
 		v := &res.Violations[i]
